@@ -27,3 +27,18 @@ Theorem C04_many_to_many_never_inline :
   forall r, ostr_eqb (r_type r) (Some MANY_TO_MANY) = true -> ref_inline r = false.
 Proof. exact m2m_never_inline. Qed.
 Print Assumptions C04_many_to_many_never_inline.
+
+(* ---- exactly one ---- *)
+From PyDBML Require Import Database ContainerInv ContainerFull TableInv BuildInv BuildLinks.
+
+(* On every database with the invariants the parser establishes (C05: Inv, LinkedMore — in particular on every parsed
+   database), a contained reference that is not many-to-many is listed by get_references_for_sql of exactly one table:
+   the question has an answer for every table (no exception), and the answer is yes for one listed table only. *)
+Theorem C04_exactly_one_table_hosts_the_key :
+  forall h d db r rr, Inv h d db -> LinkedMore h d db -> In r (d_refs db) -> h_reference h r = Some rr ->
+  (ostr_eqb (r_type rr) (Some MANY_TO_ONE) || ostr_eqb (r_type rr) (Some ONE_TO_ONE) || ostr_eqb (r_type rr) (Some ONE_TO_MANY)) = true ->
+  exists holder, In holder (d_tables db) /\
+    forall t tb, In t (d_tables db) -> h_table h t = Some tb ->
+      exists l, references_for_sql h t tb = Ok l /\ (In r l <-> t = holder).
+Proof. exact exactly_one_table_hosts_the_key. Qed.
+Print Assumptions C04_exactly_one_table_hosts_the_key.
